@@ -118,11 +118,11 @@ class ErrorHandling:
                 expected['[string]'] = token_name
 
             elif isinstance(value, str):
+                # doesn't content regexp (checked before the backslashes are removed)
+                if '\\s' in value or '|' in value:
+                    continue
                 value = value.replace('\\b', '').replace('\\', '')
-
-                # doesn't content regexp
-                if '\\s' not in value and '|' not in value:
-                    expected[value] = token_name
+                expected[value] = token_name
 
         suggestions = []
         if len(expected) == 1:
